@@ -3,9 +3,13 @@ package main
 import (
 	"context"
 	"encoding/json"
+	"errors"
 	"fmt"
+	"io"
+	"runtime/debug"
 	"sort"
 	"strings"
+	"sync"
 	"sync/atomic"
 
 	"perkeep.org/pkg/blob"
@@ -17,10 +21,28 @@ import (
 )
 
 type dirCase struct {
-	CaseID  string `json:"case_id"`
+	CaseID string `json:"case_id"`
+	// M is the static-set splitting threshold the case sets through the verif hook;
+	// 0 = the threshold is left alone (perkeep's production default).
 	M       int    `json:"max_static_set_members"`
 	Count   int    `json:"members"`
-	Variant string `json:"variant"`
+	Variant string `json:"variant"` // distinct | dupes | all-same | entries (members are stored file/directory/symlink schema blobs)
+	// Hash names the digest of the member refs: "" = sha224, or sha1, sha256, mixed.
+	Hash string `json:"member_ref_hash,omitempty"`
+}
+
+func (dc dirCase) thr() string {
+	if dc.M == 0 {
+		return "production-threshold"
+	}
+	return "lowered-threshold"
+}
+
+func (dc dirCase) thrText() string {
+	if dc.M == 0 {
+		return "production static-set threshold (unchanged)"
+	}
+	return fmt.Sprintf("static-set threshold %d", dc.M)
 }
 
 type jset struct {
@@ -125,8 +147,55 @@ func dirCounts(m int, thorough bool, rngInts func(n int) int) []int {
 }
 
 func runDirs(r *ev.Run) {
+	// Production-threshold directories first: nothing in this process has touched
+	// schema.maxStaticSetMembers yet (the lowered-threshold part below restores it after
+	// every m, but these cases must not depend on that).
+	runProdDirs(r)
 	for _, m := range []int{3, 4, 7} {
 		runDirsM(r, m)
+	}
+}
+
+// prodDirCases lists the directories written with perkeep's own splitting threshold.
+// A member costs len(ref)+8 bytes of static-set JSON, so these are the only cases in
+// which "the subsets the writer produces fit in a schema blob" is exercised at all.
+func prodDirCases(r *ev.Run) []dirCase {
+	rng := r.Rand("dirs/production")
+	big := 34000 + rng.Intn(2000) // ~35 000: three full subsets and a rest
+	mk := func(n int, hash, variant string) dirCase {
+		h := hash
+		if h == "" {
+			h = "sha224"
+		}
+		return dirCase{CaseID: fmt.Sprintf("dP-%d-%s-%s;", n, h, variant), Count: n, Variant: variant, Hash: hash}
+	}
+	// quick: the one case most sensitive to "threshold x bytes-per-member > schema blob
+	// limit" (longest refs, several full subsets and a rest) ...
+	// ... one between the threshold and the next multiple, and one just-split directory
+	// of stored entries listed through Readdir (all three together cost well under 1 s)
+	cases := []dirCase{mk(big, "sha256", "distinct"), mk(15000, "", "distinct"), mk(10001, "", "entries")}
+	if r.Thorough() {
+		for _, n := range []int{9999, 10000, 10001, 19999, 20000, 20001, 30000, big + 1} {
+			cases = append(cases, mk(n, "", "distinct"))
+		}
+		for _, n := range []int{10000, 10001, 15000, 20001} {
+			cases = append(cases, mk(n, "sha256", "distinct"))
+		}
+		cases = append(cases,
+			mk(20001, "mixed", "distinct"), mk(12000+rng.Intn(8000), "sha1", "distinct"),
+			mk(20001, "", "dupes"), mk(10001, "", "all-same"), mk(12000+rng.Intn(8000), "mixed", "dupes"),
+			// members that are stored entries, listed through Readdir
+			mk(10000, "", "entries"), mk(15000+rng.Intn(5000), "", "entries"))
+	}
+	return cases
+}
+
+func runProdDirs(r *ev.Run) {
+	for _, dc := range prodDirCases(r) {
+		if !r.Only(dc.CaseID) {
+			continue
+		}
+		r.Guard("directory", dc, func() { runDir(r, dc) })
 	}
 }
 
@@ -136,6 +205,7 @@ func runDirsM(r *ev.Run, m int) {
 	if old <= 7 {
 		r.Inconclusive(fmt.Sprintf("static-set threshold was already %d before the check set it", old))
 	}
+	r.Extra("dir_production_threshold_seen_by_hook", old)
 	rng := r.Rand(fmt.Sprintf("dirs/%d", m))
 	counts := dirCounts(m, r.Thorough(), rng.Intn)
 	for _, n := range counts {
@@ -150,26 +220,103 @@ func runDirsM(r *ev.Run, m int) {
 			r.Guard("directory", dc, func() { runDir(r, dc) })
 		}
 	}
+	// members that are stored entries, listed through Readdir: around every branch
+	m2 := m * m
+	ecounts := []int{0, 1, m, m + 1, 2*m + 1, m2 - 1, m2, m2 + 1, m2 + m, m2*m + 1}
+	if r.Thorough() {
+		for n := 0; n <= m2*m+m2+2; n += 1 + rng.Intn(4) {
+			ecounts = append(ecounts, n)
+		}
+	}
+	seen := map[int]bool{}
+	for _, n := range ecounts {
+		if seen[n] {
+			continue
+		}
+		seen[n] = true
+		dc := dirCase{CaseID: fmt.Sprintf("d%d-%d-entries;", m, n), M: m, Count: n, Variant: "entries"}
+		if !r.Only(dc.CaseID) {
+			continue
+		}
+		r.Guard("directory", dc, func() { runDir(r, dc) })
+	}
 	r.Note("dir_threshold", fmt.Sprintf("m=%d", m))
+}
+
+// entryWant is what the harness stored as one member of an "entries" directory.
+type entryWant struct {
+	name string
+	typ  string
+}
+
+func memberHash(dc dirCase, rng interface{ Intn(int) int }) string {
+	switch dc.Hash {
+	case "":
+		return "sha224"
+	case "mixed":
+		return []string{"sha1", "sha224", "sha256"}[rng.Intn(3)]
+	}
+	return dc.Hash
+}
+
+// buildEntries stores Count small file / directory / symlink schema blobs (and what
+// they reference) and returns their refs with the names and types to expect.
+func buildEntries(dc dirCase, rng interface{ Intn(int) int }, put func(*schema.Blob) bool, putRaw func([]byte) (blob.Ref, bool)) ([]blob.Ref, []entryWant, bool) {
+	members := make([]blob.Ref, dc.Count)
+	ents := make([]entryWant, dc.Count)
+	var datas []blob.Ref
+	for i := 0; i < 5; i++ {
+		br, ok := putRaw([]byte(fmt.Sprintf("c15 entry data %s %d %s", dc.CaseID, i, strings.Repeat("x", i*7))))
+		if !ok {
+			return nil, nil, false
+		}
+		datas = append(datas, br)
+	}
+	empty := schema.NewStaticSet()
+	empty.SetStaticSetMembers(nil)
+	emptySet := empty.Blob()
+	if !put(emptySet) {
+		return nil, nil, false
+	}
+	for i := range members {
+		name := fmt.Sprintf("e%06d-%04x", i, rng.Intn(1<<16))
+		if rng.Intn(7) == 0 {
+			name += " ünï.txt"
+		}
+		var bb *schema.Builder
+		typ := "file"
+		switch k := rng.Intn(20); {
+		case k == 0:
+			typ = "directory"
+			bb = schema.NewDirMap(name).PopulateDirectoryMap(emptySet.BlobRef())
+		case k == 1:
+			typ = "symlink"
+			bb = schema.NewFileMap(name).SetSymlinkTarget(fmt.Sprintf("../target-%d", i))
+		case k < 5:
+			bb = schema.NewFileMap(name)
+			if err := bb.PopulateParts(0, nil); err != nil {
+				return nil, nil, false
+			}
+		default:
+			d := rng.Intn(len(datas))
+			size := int64(len(fmt.Sprintf("c15 entry data %s %d %s", dc.CaseID, d, strings.Repeat("x", d*7))))
+			bb = schema.NewFileMap(name)
+			if err := bb.PopulateParts(size, []schema.BytesPart{{Size: uint64(size), BlobRef: datas[d]}}); err != nil {
+				return nil, nil, false
+			}
+		}
+		b := bb.Blob()
+		if !put(b) {
+			return nil, nil, false
+		}
+		members[i] = b.BlobRef()
+		ents[i] = entryWant{name: name, typ: typ}
+	}
+	return members, ents, true
 }
 
 func runDir(r *ev.Run, dc dirCase) {
 	rng := r.Rand("dir/" + dc.CaseID)
-	members := make([]blob.Ref, dc.Count)
-	pool := make([]blob.Ref, 1+rng.Intn(dc.M+2))
-	for i := range pool {
-		pool[i] = sto.RefOf("sha224", []byte(fmt.Sprintf("c15 pool member %s %d", dc.CaseID, i)))
-	}
-	for i := range members {
-		switch dc.Variant {
-		case "distinct":
-			members[i] = sto.RefOf("sha224", []byte(fmt.Sprintf("c15 member %s %d", dc.CaseID, i)))
-		case "dupes":
-			members[i] = pool[rng.Intn(len(pool))]
-		case "all-same":
-			members[i] = pool[0]
-		}
-	}
 	ctx := context.Background()
 	st := &memory.Storage{}
 	put := func(b *schema.Blob) bool {
@@ -179,16 +326,112 @@ func runDir(r *ev.Run, dc dirCase) {
 		}
 		return true
 	}
-	ss := schema.NewStaticSet()
-	subs := ss.SetStaticSetMembers(append([]blob.Ref(nil), members...))
-	top := ss.Blob()
-	for _, b := range subs {
+	putRaw := func(data []byte) (blob.Ref, bool) {
+		br := sto.RefOf("sha224", data)
+		if _, err := st.ReceiveBlob(ctx, br, strings.NewReader(string(data))); err != nil {
+			r.Inconclusive("memory store refused a blob: " + err.Error())
+			return br, false
+		}
+		return br, true
+	}
+
+	members := make([]blob.Ref, dc.Count)
+	var ents []entryWant
+	if dc.Variant == "entries" {
+		var ok bool
+		members, ents, ok = buildEntries(dc, rng, put, putRaw)
+		if !ok {
+			r.Inconclusive("could not prepare the member entries of " + dc.CaseID)
+			return
+		}
+	} else {
+		npool := dc.M + 2
+		if dc.M == 0 {
+			npool = 40
+		}
+		pool := make([]blob.Ref, 1+rng.Intn(npool))
+		for i := range pool {
+			pool[i] = sto.RefOf(memberHash(dc, rng), []byte(fmt.Sprintf("c15 pool member %s %d", dc.CaseID, i)))
+		}
+		for i := range members {
+			switch dc.Variant {
+			case "distinct":
+				members[i] = sto.RefOf(memberHash(dc, rng), []byte(fmt.Sprintf("c15 member %s %d", dc.CaseID, i)))
+			case "dupes":
+				members[i] = pool[rng.Intn(len(pool))]
+			case "all-same":
+				members[i] = pool[0]
+			}
+		}
+	}
+	hashLabel := dc.Hash
+	if hashLabel == "" {
+		hashLabel = "sha224"
+	}
+
+	viol := func(sig, format string, a ...any) {
+		r.Violation(sig, fmt.Sprintf("directory of %d members (%s, %s refs), %s: ", dc.Count, dc.Variant, hashLabel, dc.thrText())+fmt.Sprintf(format, a...), dc)
+	}
+
+	// build the static-set blobs; the builder must not panic for any member list
+	var subs []*schema.Blob
+	var top *schema.Blob
+	var panicMsg string
+	func() {
+		defer func() {
+			if e := recover(); e != nil {
+				panicMsg = fmt.Sprintf("panic: %v\n%s", e, ev.PerkeepFrames(string(debug.Stack())))
+			}
+		}()
+		ss := schema.NewStaticSet()
+		subs = ss.SetStaticSetMembers(append([]blob.Ref(nil), members...))
+		top = ss.Blob()
+	}()
+	r.Eval(1)
+	if panicMsg != "" {
+		viol("staticset-build-panic/"+dc.thr(), "building the static-set blobs (SetStaticSetMembers + Blob): %s", panicMsg)
+		return
+	}
+
+	// every static-set blob written is a schema blob: within the schema blob size limit,
+	// parseable by perkeep's schema parser and by the harness's, of type static-set,
+	// with members or mergeSets but not both (doc/schema/static-set.md)
+	all := append(append([]*schema.Blob(nil), subs...), top)
+	maxBytes := 0
+	var badSize, badParse bool
+	for _, b := range all {
+		js := b.JSON()
+		if len(js) > maxBytes {
+			maxBytes = len(js)
+		}
+		r.Eval(1)
+		if len(js) > schema.MaxSchemaBlobSize && !badSize {
+			badSize = true
+			var own jset
+			json.Unmarshal([]byte(js), &own)
+			viol("staticset-blob-too-large/"+dc.thr(), "the writer produced a static-set blob of %d bytes (%d members, %d mergeSets); the schema blob size limit (schema.MaxSchemaBlobSize) is %d bytes, no reader accepts it",
+				len(js), len(own.Members), len(own.MergeSets), schema.MaxSchemaBlobSize)
+		}
+		if badParse {
+			continue
+		}
+		var own jset
+		if err := json.Unmarshal([]byte(js), &own); err != nil || own.Type != "static-set" || (len(own.Members) > 0 && len(own.MergeSets) > 0) {
+			badParse = true
+			viol("staticset-blob-invalid/"+dc.thr(), "static-set blob %s is not a well-formed static-set (json error %v, camliType %q, %d members and %d mergeSets)", b.BlobRef(), err, own.Type, len(own.Members), len(own.MergeSets))
+			continue
+		}
+		if len(js) <= schema.MaxSchemaBlobSize {
+			if _, err := schema.BlobFromReader(b.BlobRef(), strings.NewReader(js)); err != nil {
+				badParse = true
+				viol("staticset-blob-invalid/"+dc.thr(), "perkeep's schema parser rejects static-set blob %s (%d bytes) that its own writer produced: %v", b.BlobRef(), len(js), err)
+			}
+		}
+	}
+	for _, b := range all {
 		if !put(b) {
 			return
 		}
-	}
-	if !put(top) {
-		return
 	}
 	dir := schema.NewDirMap("c15-dir").PopulateDirectoryMap(top.BlobRef()).Blob()
 	if !put(dir) {
@@ -221,20 +464,39 @@ func runDir(r *ev.Run, dc dirCase) {
 			}
 		}
 	}
-	r.Note("dir_branch", branch)
-	r.Note("dir_variant", dc.Variant)
-	r.Note("dir_set_depth", fmt.Sprint(depth))
-	if maxEntries > dc.M {
-		r.Count("dir_blobs_with_more_than_m_entries", 1)
+	if dc.M == 0 {
+		r.Note("dir_threshold", "production")
+		r.Note("dir_production", branch)
+		r.Note("dir_production", hashLabel+"-refs")
+		r.Note("dir_production", dc.Variant)
+		if depth > 1 {
+			r.Note("dir_production", "split")
+		}
+		r.Note("dir_production_case", fmt.Sprintf("%d/%s/%s:%s,blobs=%d,largest=%dB,max-entries=%d", dc.Count, hashLabel, dc.Variant, branch, len(all), maxBytes, maxEntries))
+		r.Count("dir_production_directories", 1)
+		noteMax(r, "dir_production_largest_static_set_blob_bytes", maxBytes)
+		noteMax(r, "dir_production_largest_entry_list", maxEntries)
+	} else {
+		r.Note("dir_branch", branch)
+		r.Note("dir_variant", dc.Variant)
+		r.Note("dir_set_depth", fmt.Sprint(depth))
+		if maxEntries > dc.M {
+			r.Count("dir_blobs_with_more_than_m_entries", 1)
+		}
 	}
 	r.Count("directories", 1)
 	r.Count("dir_members", dc.Count)
-	r.Count("dir_static_set_blobs", len(subs)+1)
+	r.Count("dir_static_set_blobs", len(all))
 	if depth > 1 {
-		r.Distinct(fmt.Sprintf("dir/%d/%d/%s", dc.M, dc.Count, dc.Variant))
+		if dc.M == 0 {
+			r.Distinct(fmt.Sprintf("dir/production/%d/%s/%s", dc.Count, dc.Variant, hashLabel))
+		} else {
+			r.Distinct(fmt.Sprintf("dir/%d/%d/%s", dc.M, dc.Count, dc.Variant))
+		}
 	}
-	viol := func(sig, format string, a ...any) {
-		r.Violation(sig, fmt.Sprintf("directory of %d members (%s), static-set threshold %d, %d static-set blobs, nesting %d: ", dc.Count, dc.Variant, dc.M, len(subs)+1, depth)+fmt.Sprintf(format, a...), dc)
+	vpre := viol
+	viol = func(sig, format string, a ...any) {
+		vpre(sig, fmt.Sprintf("%d static-set blobs (largest %d bytes), nesting %d: ", len(all), maxBytes, depth)+format, a...)
 	}
 
 	dr, err := schema.NewDirReader(ctx, st, dir.BlobRef())
@@ -249,17 +511,36 @@ func runDir(r *ev.Run, dc dirCase) {
 		viol("staticset-error/"+branch, "StaticSet: %v", err)
 		return
 	}
-	if len(got) != len(members) {
-		viol("staticset/"+branch, "StaticSet returned %d members, the directory was built from %d", len(got), len(members))
+	if !sameMembers(got, members, func(sig, format string, a ...any) { viol(sig+"/"+branch, "StaticSet: "+format, a...) }) {
 		return
 	}
+	if ents != nil {
+		if !checkReaddir(r, dc, st, dir.BlobRef(), members, ents, branch, viol) {
+			return
+		}
+	}
+	if dc.M > 0 && dc.Count > dc.M && atomic.AddInt32(&dirSamples, 1) == 1 {
+		r.Sample(map[string]any{"kind": "directory", "case": dc, "branch": branch, "static_set_blobs": len(all)})
+	}
+	if dc.M == 0 && depth > 1 && atomic.AddInt32(&prodDirSamples, 1) == 1 {
+		r.Sample(map[string]any{"kind": "directory at the production threshold", "case": dc, "branch": branch, "static_set_blobs": len(all), "largest_static_set_blob_bytes": maxBytes, "largest_entry_list": maxEntries})
+	}
+}
+
+// sameMembers reports (through viol, signature "staticset" or "staticset-order") when
+// got is not exactly want, in order.
+func sameMembers(got, want []blob.Ref, viol func(sig, format string, a ...any)) bool {
+	if len(got) != len(want) {
+		viol("staticset", "returned %d members, the directory was built from %d", len(got), len(want))
+		return false
+	}
 	for i := range got {
-		if got[i] != members[i] {
+		if got[i] != want[i] {
 			// multiset equal but order different?
 			a := make([]string, len(got))
 			b := make([]string, len(got))
 			for k := range got {
-				a[k], b[k] = got[k].String(), members[k].String()
+				a[k], b[k] = got[k].String(), want[k].String()
 			}
 			sort.Strings(a)
 			sort.Strings(b)
@@ -270,16 +551,130 @@ func runDir(r *ev.Run, dc dirCase) {
 				}
 			}
 			if same {
-				viol("staticset-order/"+branch, "same members in a different order; first difference at index %d", i)
+				viol("staticset-order", "same members in a different order; first difference at index %d", i)
 			} else {
-				viol("staticset/"+branch, "member %d is %s, want %s (different multiset)", i, got[i], members[i])
+				viol("staticset", "member %d is %s, want %s (different multiset)", i, got[i], want[i])
 			}
+			return false
+		}
+	}
+	return true
+}
+
+// checkReaddir lists a directory whose members are stored entries through
+// DirReader.Readdir: all at once (n<=0) on fresh readers, and the first page (n>0) of a
+// fresh reader.  What further pages return is recorded, not judged: no code in perkeep
+// pages through a DirReader, and the property speaks of the listing.
+func checkReaddir(r *ev.Run, dc dirCase, st *memory.Storage, dirRef blob.Ref, members []blob.Ref, ents []entryWant, branch string, viol func(sig, format string, a ...any)) bool {
+	ctx := context.Background()
+	compare := func(call string, got []schema.DirectoryEntry, from, to int) bool {
+		if len(got) != to-from {
+			viol("readdir/"+branch, "%s returned %d entries, want members [%d,%d) of %d", call, len(got), from, to, len(members))
+			return false
+		}
+		for i, e := range got {
+			w := ents[from+i]
+			if e == nil || e.BlobRef() != members[from+i] || e.FileName() != w.name || string(e.CamliType()) != w.typ {
+				desc := "nil"
+				if e != nil {
+					desc = fmt.Sprintf("%s %q %s", e.CamliType(), e.FileName(), e.BlobRef())
+				}
+				viol("readdir/"+branch, "%s: entry %d is %s, want %s %q %s", call, i, desc, w.typ, w.name, members[from+i])
+				return false
+			}
+		}
+		return true
+	}
+	for _, n := range []int{-1, 0} {
+		dr, err := schema.NewDirReader(ctx, st, dirRef)
+		if err != nil {
+			viol("staticset-error/"+branch, "NewDirReader: %v", err)
+			return false
+		}
+		got, err := dr.Readdir(ctx, n)
+		r.Eval(1)
+		r.Count("dir_readdir_calls", 1)
+		if err != nil {
+			viol("readdir-error/"+branch, "Readdir(%d): %v", n, err)
+			return false
+		}
+		if !compare(fmt.Sprintf("Readdir(%d)", n), got, 0, len(members)) {
+			return false
+		}
+		if n == -1 {
+			// a second full listing from the same reader
+			got, err = dr.Readdir(ctx, -1)
+			r.Eval(1)
+			if err != nil {
+				viol("readdir-error/"+branch, "second Readdir(-1): %v", err)
+				return false
+			}
+			if !compare("second Readdir(-1) of one reader", got, 0, len(members)) {
+				return false
+			}
+		}
+	}
+	r.Note("dir_readdir", "all@"+dc.thr())
+	if dc.M == 0 {
+		r.Note("dir_production", "readdir")
+	}
+	if len(members) == 0 {
+		return true
+	}
+	// first page of a fresh reader; pages cross the subset boundaries for small n
+	rng := r.Rand("readdir/" + dc.CaseID)
+	step := 1 + rng.Intn(len(members)+2)
+	if dc.M > 0 && rng.Intn(2) == 0 {
+		step = 1 + rng.Intn(dc.M+1)
+	}
+	dr, err := schema.NewDirReader(ctx, st, dirRef)
+	if err != nil {
+		viol("staticset-error/"+branch, "NewDirReader: %v", err)
+		return false
+	}
+	got, err := dr.Readdir(ctx, step)
+	r.Eval(1)
+	r.Count("dir_readdir_calls", 1)
+	if err != nil && !(errors.Is(err, io.EOF) && len(got) > 0) {
+		viol("readdir-error/"+branch, "first Readdir(%d) of a fresh reader: %v", step, err)
+		return false
+	}
+	if !compare(fmt.Sprintf("first Readdir(%d) of a fresh reader", step), got, 0, min(step, len(members))) {
+		return false
+	}
+	r.Note("dir_readdir", "first-page@"+dc.thr())
+	// second page: observation only
+	if step < len(members) {
+		got2, err2 := dr.Readdir(ctx, step)
+		switch {
+		case err2 != nil:
+			r.Note("dir_readdir_second_page(not judged)", "error")
+		case len(got2) > 0 && got2[0] != nil && got2[0].BlobRef() == members[step]:
+			r.Note("dir_readdir_second_page(not judged)", "continues-after-first-page")
+		case len(got2) > 0 && got2[0] != nil && got2[0].BlobRef() == members[0] && members[0] != members[step]:
+			r.Note("dir_readdir_second_page(not judged)", "repeats-first-page")
+		default:
+			r.Note("dir_readdir_second_page(not judged)", "other")
+		}
+	}
+	return true
+}
+
+var maxSeen sync.Map // name -> *int64
+
+func noteMax(r *ev.Run, name string, v int) {
+	p, _ := maxSeen.LoadOrStore(name, new(int64))
+	cur := p.(*int64)
+	for {
+		old := atomic.LoadInt64(cur)
+		if int64(v) <= old {
+			return
+		}
+		if atomic.CompareAndSwapInt64(cur, old, int64(v)) {
+			r.Extra(name, v)
 			return
 		}
 	}
-	if dc.Count > dc.M && atomic.AddInt32(&dirSamples, 1) == 1 {
-		r.Sample(map[string]any{"kind": "directory", "case": dc, "branch": branch, "static_set_blobs": len(subs) + 1})
-	}
 }
 
-var dirSamples, fileSamples int32
+var dirSamples, prodDirSamples, fileSamples int32
